@@ -100,6 +100,12 @@ def gen(rng, tier, index):
                                      'plain title', "o'clock"])
         if rng.random() < 0.3:
             e['run_background'] = True
+        elif rng.random() < 0.1:
+            e['run_background'] = False
+        if rng.random() < 0.08:
+            e['path'] = ''          # explicit empty: the default applies
+        if rng.random() < 0.08:
+            e['title'] = ''
         if rng.random() < 0.2:
             e['icon'] = 'switch'
         manifest.append(e)
@@ -113,6 +119,16 @@ def gen(rng, tier, index):
         else:
             scripts[f] = ('time {} repeat begin kelvin {} set all end'
                           .format(rng.choice([0.2, 0.7]), tag))
+    if len(manifest) >= 2 and rng.random() < 0.15:
+        # two entries for one path: the later one wins
+        dup = dict(rng.choice(manifest))
+        dup['title'] = 'Second'
+        dup['color'] = rng.choice(COLOURS)
+        if rng.random() < 0.5:
+            other = rng.choice(files)
+            dup['path'] = derive_path(dup)
+            dup['file_name'] = other
+        manifest.append(dup)
     for pseudo in ('off', 'stop-current', 'stop-all'):
         if rng.random() < 0.4:
             e = {'file_name': 'off-all.ls' if pseudo == 'off' else '',
@@ -226,6 +242,15 @@ def execute(scenario, chooser):
         st['jlog'] = jlog
         inst = {}           # id(agent) -> index of its hand-over in jlog
         agents_alive = []   # keeps the agents referenced (ids stay unique)
+        agents_alive_all = []
+
+        def unfinished_instances():
+            out = []
+            for a in agents_alive_all:
+                t = world.thread_of_agent(sim, a)
+                if t is None or t.state != 'done':
+                    out.append(inst.get(id(a)))
+            return out
 
         def running_instances():
             cur = jobs.get_current()
@@ -246,6 +271,7 @@ def execute(scenario, chooser):
                 self._rec('add', name, job)
                 agent = super().add_job(job, name)
                 inst[id(agent)] = len(jlog) - 1
+                agents_alive_all.append(agent)
                 return agent
 
             def insert_job(self, job, name=None):
@@ -256,6 +282,7 @@ def execute(scenario, chooser):
                 self._rec('spawn', name, job)
                 agent = super().spawn_job(job, name)
                 inst[id(agent)] = len(jlog) - 1
+                agents_alive_all.append(agent)
                 return agent
 
             def stop_job(self, name):
@@ -304,6 +331,7 @@ def execute(scenario, chooser):
                                      if jobs.get_current() else []) +
                                     list(jobs.get_background())],
                  'inst_before': running_instances(),
+                 'unfinished_before': unfinished_instances(),
                  'exc': None, 'status': 200}
             try:
                 front_end.blueprint.dispatch(r['path'])
@@ -424,11 +452,13 @@ def judge(sc, obs, st, violation, probes, res):
                  j['op'] == 'clear_queue']
         script_opens = [p for p, m in o['opens']
                         if 'r' in m and p.startswith('scripts')]
-        # ---- every rendered ScriptControl is escaped ----------------------
+        # ---- every rendered ScriptControl is escaped, and its `running`
+        # flag is right whenever the truth is unambiguous ------------------
         for tmpl, ctx in o['rendered']:
             for c in ([ctx['script']] if ctx.get('script') else []) + \
                     ctx.get('scripts', []):
                 _check_escaped(c, sc, violation, where)
+                _check_running_flag(c, o, st, violation, where)
         if route == '404':
             probes['hostile_request_404'] = 1
             if o['status'] != 404 or new_jobs or stops or script_opens:
@@ -643,12 +673,35 @@ def _running_now(o, st):
     return o['running_after']
 
 
+def _check_running_flag(c, o, st, violation, where):
+    """A script shown as running must have a job of its path running, and
+    vice versa - judged only when no job of that name started, ended or was
+    handed over during the request."""
+    name = html.unescape(c['path'])
+    mine = {k for k, j in enumerate(st['jlog'])
+            if j['op'] in ('add', 'spawn') and j['name'] == name}
+    if any(j['name'] == name for j in o['jobs']
+           if j['op'] in ('add', 'spawn')):
+        return
+    before = {k for k in o['inst_before'] if k in mine}
+    after = {k for k in o['inst_after'] if k in mine}
+    if before != after:
+        return                      # a transition during the request
+    truth = bool(before)
+    if not truth and any(k in mine for k in o['unfinished_before']):
+        return      # a queued job of that path may have run in between
+    if bool(c['running']) != truth:
+        violation('running-flag-wrong',
+                  '{}: the page shows {!r} with running={}, but {} job of '
+                  'that path was running before and after the request'
+                  .format(where, c['path'], c['running'],
+                          'a' if truth else 'no'))
+
+
 def _check_escaped(c, sc, violation, where):
     """c: field summary of a ScriptControl that reached a page."""
-    for e in sc['manifest']:
+    for e in reversed(sc['manifest']):      # a later entry wins its path
         if html.escape(derive_path(e)) != c['path']:
-            continue
-        if html.escape(e['file_name']) != c['file_name']:
             continue
         want = {'file_name': html.escape(e['file_name']),
                 'path': html.escape(derive_path(e)),
